@@ -72,9 +72,18 @@ extern "C" int LLVMFuzzerTestOneInput(const uint8_t *data, size_t size)
     }
     std::vector<unsigned char *> objv;
     for (auto &a : args) objv.push_back((unsigned char *)a.c_str());
-    run_colvarscript_command((int)objv.size(), objv.data());
+    cvm::clear_error();
+    int const rc = run_colvarscript_command((int)objv.size(), objv.data());
     char const *res = get_colvarscript_result();
     if (!res) fuzz_fail("null result string");
+    if (rc == COLVARS_OK && cvm::get_error() != COLVARS_OK) {
+      // a command returns a result or an error, not "success" with the module's error flag raised
+      std::string what = "command returned success with error flag set:";
+      size_t const isub = (args.size() > 0 && args[0] == "cv") ? 1 : 2;
+      if (args.size() > 0) what += " " + args[0].substr(0, 8);
+      if (args.size() > isub) what += " " + args[isub].substr(0, 24);
+      fuzz_fail(what.c_str());
+    }
   }
   // module still usable
   cvm::clear_error();
